@@ -645,6 +645,22 @@ func checkEventSwitch(p *Prog, r *Report, ru *Rule) {
 		}
 	})
 	if nil == call {
+		/* Or put, as it is, into the line of a CLine (a print function
+		which needs no formatting, folded in). */
+		eachInstr(w, func(i ssa.Instruction) {
+			st, ok := i.(*ssa.Store)
+			if !ok {
+				return
+			}
+			if fv, _ := loadedField(stripConv(st.Val, false)); fv != helpF {
+				return
+			}
+			if lf, base := fieldAddrOf(st.Addr); nil != lf && "Line" == lf.Name() && typeIs(base.Type(), ModPath+"/"+opsPkg, "CLine") {
+				call = i
+			}
+		})
+	}
+	if nil == call {
 		ru.Bad("watchIOBEvents:rearm", posOf(ifi), "the callback help is not re-printed when a shell is gone")
 		return
 	}
